@@ -172,6 +172,14 @@ impl Check for C20 {
         };
         warm(ctx);
         ctx.class(&format!("{}/history{}", name, case / 7));
+        // a copy of a descriptor publishes what the original publishes
+        {
+            let c = arch.box_clone();
+            ctx.eval();
+            if c.name() != arch.name() || c.endian() != arch.endian() || c.word_size() != arch.word_size() || c.stack_pointer() != arch.stack_pointer() {
+                ctx.violation(&format!("{}:box_clone_publishes_another_descriptor", name), json!({"architecture": name, "clone": c.name(), "clone_endian": format!("{:?}", c.endian())}));
+            }
+        }
         let cc = arch.calling_convention();
         let mut viol = |ctx: &mut Ctx, kind: &str, what: String, detail: serde_json::Value| {
             ctx.violation(&format!("{}:{}:{}", name, kind, what), json!({"architecture": name, "detail": detail}));
